@@ -357,6 +357,9 @@ func (u *UniqueIdentifier) unpack(buf []byte, pos int) error {
 		return errUnexpectedExtHdrType
 	}
 	valueLen := u.extHdr.Length - 4
+	if valueLen < 32 {
+		return errShortUniqueID
+	}
 	id := make([]byte, valueLen)
 	copy(id, buf[pos:])
 	u.ID = id
